@@ -406,8 +406,10 @@ func (sa *Application) clearPlaceholderTimer() {
 func (sa *Application) timeoutPlaceholderProcessing() {
 	sa.Lock()
 	defer sa.Unlock()
-	if (sa.IsRunning() || sa.IsCompleting()) && !resources.IsZero(sa.allocatedPlaceholder) {
+	if sa.IsRunning() || sa.IsCompleting() {
 		// Case 1: if all app's placeholders are allocated, only part of them gets replaced, just delete the remaining placeholders
+		// This also covers a timer that fired just before it was cleared: nothing is left to release and the
+		// application, which has real allocations, must not be failed or resumed.
 		var toRelease []*Allocation
 		replacing := 0
 		preempted := 0
